@@ -2,6 +2,13 @@
 """writes MANIFEST.json from the table below (keeps it valid and in one place)"""
 import json, os
 CHECKS = {
+ 'C07': dict(technique='path-sensitive typestate over handle_response(): duplicate-arm / handler / emission-count / verdict agreement (R-RESP)',
+             text='Decides four structural clauses that the statement of C07 names, on every path of handle_response(): a duplicate Confirmable response is answered '
+                  'again exactly once and never re-delivered (and its message id is recorded before delivery); after the handler exactly one ACK or RST is sent for the '
+                  'received PDU, the RST exactly for verdict FAIL on a non-ACK, with the recorded verdict agreeing; a non-ACK response cancels the request\'s '
+                  'retransmission by token before delivery; a response consumed by sending the next Block1 is acknowledged. The exactly-once conclusion over all loss / '
+                  'duplication / delay patterns, the NACK side and the server\'s separate-response machinery are not decided.',
+             design='6 C07'),
  'C02': dict(technique='taint + interval range checker with the decoder\'s option-length table as bound (R-RANGE), declared-length cap rule (R-STREAM-CAP), parse-before-dispatch and reject-arm typestate (R-PARSE-GATE), library-wide stale-buffer-pointer typestate (R-FIXUP), compare-within-length relation analysis on (pointer,length) pairs (R-CMP-BOUND), inductive capacity-guard rule on persistent element counts (R-COUNT-CAP), computed freeable-field/stale-copy typestate (R-STALE-COPY)',
              text='Decides necessary structural conditions of memory safety on the receive surface: wire-derived indices/copy sizes into fixed-size objects proven in '
                   'range (bounds taken from the decoder\'s own per-option table), CBOR-declared sizes compared with what is left, wire-derived shift counts bounded, '
@@ -107,7 +114,6 @@ CHECKS = {
              design='6 C17'),
 }
 NA = {
- 'C07': 'exactly-once conclusion quantifies over interleavings of retransmission timers with lost/duplicated/delayed datagrams; no structural clause is both necessary and sufficiently specific (the one-owner-per-node ingredient is decided under C06)',
  'C11': 'freshness, ordering and never-after-cancel of notifications are temporal properties over histories; a who-may-write rule on the observe counter would fire on behaviour-preserving refactorings',
 }
 ALL = ['C%02d' % i for i in range(1, 21)]
